@@ -33,17 +33,22 @@ pub struct Fix {
     pub via_raw_ext: Option<Result<String, String>>,
     /// number of ruma calls made
     pub calls: u64,
+    /// `{:?}` of the typed value and of the value read back from its own serialization: equal
+    /// when the round trip changed nothing at the typed level (a key whose value is the default
+    /// may legitimately be omitted from the text)
+    pub typed_unchanged: Option<bool>,
 }
 
 pub fn fix<C>(ty: &str, c: &C) -> Fix
 where
-    C: EventContentFromType,
+    C: EventContentFromType + fmt::Debug,
     C::EventType: fmt::Display,
 {
     let mut calls = 2;
     let event_type = c.event_type().to_string();
     let s1 = serde_json::to_string(c).map_err(|e| e.to_string());
     let (mut via_from_parts, mut via_raw_ext) = (None, None);
+    let mut typed_unchanged = None;
     if let Ok(text) = &s1 {
         match Raw::<C>::from_json_string(text.clone()) {
             Err(e) => via_from_parts = Some(Err(format!("own output is not JSON: {e}"))),
@@ -52,7 +57,10 @@ where
                 via_from_parts = Some(
                     C::from_parts(ty, raw.json())
                         .map_err(|e| format!("reparse: {e}"))
-                        .and_then(|c2| serde_json::to_string(&c2).map_err(|e| format!("reserialize: {e}"))),
+                        .and_then(|c2| {
+                            typed_unchanged = Some(format!("{c:?}") == format!("{c2:?}"));
+                            serde_json::to_string(&c2).map_err(|e| format!("reserialize: {e}"))
+                        }),
                 );
                 via_raw_ext = Some(
                     raw.deserialize_with_type(c.event_type())
@@ -62,7 +70,7 @@ where
             }
         }
     }
-    Fix { type_name: std::any::type_name::<C>(), event_type, s1, via_from_parts, via_raw_ext, calls }
+    Fix { type_name: std::any::type_name::<C>(), event_type, s1, via_from_parts, via_raw_ext, calls, typed_unchanged }
 }
 
 #[derive(Clone, Debug, PartialEq)]
